@@ -1,20 +1,21 @@
 SPECIFICATION Spec
-CONSTANTS MaxPre = 2 MaxN = 4
-  PreAlphabet <- AlphaThorough
-  Accs <- AccsQuick
-  Posts <- PostsQuick
+CONSTANTS MaxPre = 2 MaxN = 3
+  PreAlphabet <- AlphaVarsWide
+  Accs <- AccsVarsWide
+  Posts <- PostsVarsWide
   FlowKinds = {"bare", "ctx"}
-  Drivers = {"fill"}
-  Places = {"alone"}
+  Drivers = {"run", "fill", "persist", "split"}
+  Places = {"alone", "afterstop"}
   StopFlag = "per_branch"
   CopyMode = "per_branch"
   AdapterHides = TRUE
   VarCopy = "per_value"
-  Bufs <- BufOne
+  Bufs <- BufThree
 INVARIANT DriversAgree
 INVARIANT FillReaches
 INVARIANT StopSound
 INVARIANT ComputeOnce
 INVARIANT BufBound
-INVARIANT Emitted
+INVARIANT ComposeAsSequence
+INVARIANT AdaptersHide
 CHECK_DEADLOCK FALSE
